@@ -137,6 +137,14 @@ theorem demo_eligibleOf (k : Nat) (ids : List Nat)
   unfold eligibleOf
   rw [candidates_of_sorted h]
 
+/-- the side conditions of `C16_select_histories` hold for the demo screen: distinct plate ids, single-sample plates -/
+example : (demo.map (·.id)).Nodup ∧ (∀ p ∈ demo, p.observed = false → p.single = true) := by decide
+
+/-- ... and its conclusion has content there: after the two-step history `[3, 4]` (k = 2) sample 1 has exactly k plates,
+    the other samples none -/
+example : (batchPlates demo [3, 4]).length = 1 * 2 ∧ cnt (batchPlates demo [3, 4]) 1 = 2 ∧
+    cnt (batchPlates demo [3, 4]) 0 = 0 ∧ cnt (batchPlates demo [3, 4]) 2 = 0 := by decide
+
 /-- empty batch: sample 2 (one plate left) cannot be opened -/
 example : eligibleOf 2 demo [] = .ok [⟨0, [0], false⟩, ⟨1, [0], false⟩, ⟨2, [0], false⟩, ⟨3, [1], false⟩, ⟨4, [1], false⟩] := by
   rw [demo_eligibleOf 2 [] (by decide)]; rfl
